@@ -5,8 +5,9 @@ ASSUMPTIONS = [
     'A-real: floating point treated as exact real/complex arithmetic in E1/E2; T3 compares with tolerance 1e-9*scale',
     'A-int: array sizes below 2^63 (Python ints are mathematical integers in E1)',
     'A-numpy: the NumPy/SciPy contract table of vt/e1/npmodel.py (shape, kind, aliasing, contiguity, may-write sets) '
-    'is assumed, not proved (the T3 runs exercise the same NumPy calls on the real code, which would expose a wrong shape rule as a crash, '
-    'but there is no separate differential test of the table)',
+    'is assumed, not proved; it is differentially tested against the real NumPy/SciPy on every C06 run (vt/e1/nptest.py: acceptance, '
+    'result shape, complexness, view-or-copy, contiguity of reshape/transpose/conj/copy/indexing/tensordot/dot/matmul/einsum/diag/svd/qr/rq '
+    'on seeded random arrays - bounded)',
     'A-lapack: svd/qr/rq/solve/inv/eig/expm satisfy their mathematical definitions; overwrite_a may clobber its '
     'argument buffer and nothing else',
     'A-python: subset semantics of vt/e1/symexec.py (CPython evaluation order, no operator overloading besides TT)',
